@@ -10,10 +10,17 @@ FmtClsAll == {"std", "with_dot", "no_r", "date_only", "with_space", "percent", "
 OpClsAll == {"log_plain", "log_empty_msg", "log_multiline", "log_nonascii", "log_huge", "log_no_fields",
              "log_target_empty", "log_brace_open", "log_brace_empty", "log_brace_unbalanced", "log_brace_trailing_comma",
              "log_brace_multibyte", "log_brace_unknown", "log_brace_default", "trigger", "flush", "elf", "reopen",
-             "parse_garbage", "parse_unicode", "restart", "reset"}
+             "parse_garbage", "parse_unicode", "restart", "reset", "dir_removed"}
 OpClsQ == {"log_plain", "log_no_fields", "log_brace_open", "log_brace_multibyte", "log_brace_unknown", "trigger", "elf",
-           "parse_garbage", "restart"}
-View == <<dirc, naming, fmtc, append, ops, hist>>
+           "parse_garbage", "restart", "dir_removed"}
+DirClsEmpty == {"empty"}
+NamingsNum == {"Num"}
+OutClsFile == {"file"}
+OutClsAll == {"file_direct", "file_buf", "file_async", "stdout_direct", "stdout_buf", "stdout_async", "stderr_direct",
+              "stderr_buf", "stderr_async", "both_direct", "both_buf", "both_async", "pw_direct"}
+OpClsStd == {"log_plain", "log_recursive", "log_recursive_brace", "log_recursive_to_writer", "log_brace_default",
+             "log_brace_open", "adapt_dup"}
+View == <<dirc, naming, fmtc, append, outc, ops, hist>>
 Emit == (GenHist /\ ops = MaxOps) =>
-          PrintT(<<"REPLAY", ToJson([cfg |-> [dirc |-> dirc, naming |-> naming, fmtc |-> fmtc, append |-> append], steps |-> hist])>>)
+          PrintT(<<"REPLAY", ToJson([cfg |-> [dirc |-> dirc, naming |-> naming, fmtc |-> fmtc, append |-> append, outc |-> outc], steps |-> hist])>>)
 =============================================================================
